@@ -255,4 +255,23 @@ def evaluate(c):
         mb.compute()
         _, _, gb = obs.far(mb, ZEN, AZI)
         chk('CLI-MEDIA-PATTERN', float(np.abs(np.array(gb) - ga)[ga > -200].max()), 1e-9, 'pattern over media %s given as options differs from the API model' % name)
+    # (6) ground described once and used for two models (another band first): the Medium objects carry no memory of
+    # the model / frequency they served before
+    import mininec.mininec as mm
+    for name, env in (('1', dict(media=[[13., 5e-3, 0.]])), ('2circ', dict(media=[[13., 5e-3, 0., 6.5], [4., 1e-3, -2.]], boundary='circular'))):
+        shared = geom.media_from(env)
+        pats6 = []
+        for ff in (c['f'] / 4, c['f']):
+            mx = mm.Mininec(ff, geom.make_geo(case), media=shared)
+            geom.add_sources(mx, [dict(pulse=src, v=[1.0, 0.0])])
+            mx.compute()
+            _, _, gx = obs.far(mx, ZEN, AZI)
+            pats6.append(np.array(gx))
+            ev += 1
+        _, gfresh = pattern(cs, env)
+        ev += 1
+        chk('SHARED-MEDIA', float(np.abs(pats6[1] - gfresh)[gfresh > -200].max()), 1e-9,
+            'media %s used before by a model at f/4: pattern differs from the one over newly built media with the same constants' % name)
+        canon.append('%s|shared|%s' % (und, name))
+        nontriv.append(True)
     return dict(viol=viol[:8], canon=canon, nontriv=nontriv, trans=ev, traces=len(canon), evals=ev, dev=worst, outcome='gnd=%d' % len(gnd), note=wn)
